@@ -444,9 +444,11 @@ def normalize_url(
         return result
 
     # TODO: check if works with `unsplit=False`
-    if strip_protocol or not has_protocol:
-        result = urlunsplit(result)[2:]
-    else:
-        result = urlunsplit(result)
+    normalized_url = urlunsplit(result)
 
-    return result
+    # NOTE: "//" is only written in front of a netloc, and a host can be made of
+    # irrelevant labels only ("www.")
+    if (strip_protocol or not has_protocol) and normalized_url.startswith("//"):
+        normalized_url = normalized_url[2:]
+
+    return normalized_url
